@@ -420,7 +420,7 @@ pub fn check(tier: Tier) -> i32 {
 	let budget = Budget::new(if tier == Tier::Quick { 45.0 } else { 1100.0 });
 	// (keys, seqs per key, max subset size, all bound kinds)
 	let plans: Vec<(usize, usize, usize, bool)> =
-		if tier == Tier::Quick { vec![(7, 2, 3, false), (4, 3, 4, false)] } else { vec![(7, 2, 6, true), (7, 3, 5, true), (4, 3, 9, true)] };
+		if tier == Tier::Quick { vec![(7, 2, 3, false), (4, 3, 4, false), (3, 2, 3, true)] } else { vec![(7, 2, 6, true), (7, 3, 5, true), (4, 3, 9, true)] };
 	// smallest block size that does not hit the empty-block flush (see DESIGN.md, finding on block_size <= 8)
 	let opts = topts(20);
 	let mut evaluations = 0u64;
